@@ -363,3 +363,29 @@ PROPS["C15"] = {
     "assumptions": ["full-size inputs are sampled per class with an exact oracle; the equivalence F.2 = 6.6.2 for all u is exhaustive only on miniature fields",
                     "a root of the isogeny's denominators is exercised only if one exists over F_p (class iso_exceptional is reported, not required)"],
 }
+
+PROPS["C18"] = {
+    "title": "no invalid objects via the API; aliasing and caller mutation are harmless",
+    "level": "model_checking",
+    "level_text": "Api.tla is the state machine of the public API over a pool of Point slots (possibly zero-value), Scalar slots, byte buffers shared with the "
+                  "library and a private/public key object: Step(st, call) gives the outcome kind (ok / err / panic) and successor state of every call, with slot "
+                  "indices as arguments so that every receiver/argument alias pattern is a distinct call, plus environment steps for the caller scribbling over "
+                  "anything it supplied or received. (A) TLC explores the machine breadth-first on a miniature curve from the all-uninitialised pool over EVERY "
+                  "call x slot assignment x byte class to a depth bound and checks StateOK (points valid, scalars canonical, key pair consistent, public key never "
+                  "the identity) and StepOK (failure => nothing changed; only key constructors change key objects). (C) The same next-state relation, in simulation "
+                  "mode, emits schedules that the Go replayer executes on real objects; (B) the full-size trace, carrying the projection of the WHOLE pool after every "
+                  "call, is validated by Trace_Api with the same Step from the specification's own state: wrong outcome kind (a zero-value operand that did not "
+                  "panic), any object changed by a failed/panicking call, alias-unsafe results, or a key object that moved after caller mutation are rejected steps.",
+    "level_note": "trusted: TLC, BigInt/EcMul overrides (self-tested), the replayer's projection (library encoders, cross-checked by C03/C06) and recover() wrappers",
+    "exhaustive": [
+        {"spec": "MC_Api", "params": "mini211", "cfg": "MC_Api.cfg"},
+    ],
+    "drivers": [{"driver": "api", "trace": "Trace_Api",
+                 "shape": {"spec": "MC_Api", "cfg": "Shape_Api.cfg", "params": "mini211", "num": (6, 60), "depth": 60, "procs": 16}}],
+    "require_classes": {"quick": ["alias_recv", "alias_args", "alias_all", "kind_panic", "kind_err", "kind_ok", "uninit_operand", "decode_fail_valid_recv",
+                                  "decode_fail_uninit_recv", "decode_ok", "key_ctor_ok", "key_ctor_err", "mutate_with_key", "mutate_buf_with_key",
+                                  "mutate_scalar_with_key", "mutate_point_with_key", "msm", "msm_mismatch", "scalar_decode_err", "reply", "reset"]},
+    "assumptions": ["histories are sampled by TLC's simulator from the exhaustive call set (all alias patterns are enumerated; sequences are random); the depth-bounded "
+                    "exhaustive exploration is on the miniature curve",
+                    "Schnorr key objects, signing and hash-to-curve are not part of the pool model (covered functionally by C13-C15)"],
+}
